@@ -214,7 +214,9 @@ def bitsOp (j : Json) : String :=
 
 def vKids : List String :=
   ["did:nuts:AAAAAAAAAAAAAAAAAAAAAAAAAAAAAAAAAAAAAAAAAAAA#k1", "did:nuts:BBBBBBBBBBBBBBBBBBBBBBBBBBBBBBBBBBBBBBBBBBBB#k1",
-   "did:nuts:CCCCCCCCCCCCCCCCCCCCCCCCCCCCCCCCCCCCCCCCCCCC#k1"]
+   "did:nuts:CCCCCCCCCCCCCCCCCCCCCCCCCCCCCCCCCCCCCCCCCCCC#k1", "did:web:example.com:iam:alice#k1",
+   "did:nuts:AAAAAAAAAAAAAAAAAAAAAAAAAAAAAAAAAAAAAAAAAAA#k1", "did:nuts:BBBBBBBBBBBBBBBBBBBBBBBBBBBBBBBBBBBBBBBBBBB#k1",
+   "did:web:example.com#k1", "did:web:example.co#k1"]
 def vIssuer : String := "did:nuts:CCCCCCCCCCCCCCCCCCCCCCCCCCCCCCCCCCCCCCCCCCCC"
 
 /-- key resolution and signature verdicts of the verifier harness as data: the three known key ids resolve (to themselves);
